@@ -22,7 +22,9 @@ RULE = ('seeded conversations for each of the 2x2 implementation pairs x '
         'latency per hop {0, <= ping_timeout/64, <= ping_timeout/32} x server '
         'sends issued by an application task right after the connect event '
         '(racing with the probe / UPGRADE) x (threaded parties) '
-        'seeded random cooperative schedules. distinct = distinct (pair, '
+        'seeded random cooperative schedules; pairs TT, AA, TA, AT plus AH / '
+        'TH = the asyncio server behind the real aiohttp adapter and web '
+        'server (engine simH). distinct = distinct (pair, '
         'transport, heartbeat, step-shape, ender) signatures')
 ASSUMPTIONS = ['order is required under the FIFO schedule for the threaded '
                'client\'s message handlers (one task per message) and for '
